@@ -532,6 +532,11 @@ func (e *FormatEncoder) Encode(v interface{}) (int64, error) {
 			return n, err
 		}
 		n1, err := io.Copy(e.w, t.Data)
+		if err == nil && 16+uint64(n1) != t.Size {
+			// The header announced a different number of bytes than the reader
+			// delivered (file changed while reading, hard link in a tar stream)
+			err = fmt.Errorf("payload size mismatch: element size %d announced, %d written", t.Size, 16+uint64(n1))
+		}
 		return n + n1, err
 
 	case FormatFCaps:
